@@ -215,5 +215,13 @@ class Check(PropertyCheck):
         ok = set("-|+ \n") | set("abcdefghijklmnpqrstuwyzABCDEFGHIJKLMNPQRSTUWYZ0123456789") | set(gen.ALIAS_LABELS)
         return self.oracle([t.split("\n") for t in texts if set(t) <= ok])
 
+    def extreme_input(self, text):
+        """project an extreme drawing onto the alphabet of the property: other line characters become `-` / `|` / `+`,
+        everything else without a place in the alphabet becomes a label letter (the sizes and the layout stay)"""
+        ok = set("-|+ \n") | set("abcdefghijklmnpqrstuwyzABCDEFGHIJKLMNPQRSTUWYZ0123456789") | set(gen.ALIAS_LABELS)
+        m = {"_": "-", "~": "-", "=": "-", "/": "|", "\\": "|", ":": "|", "!": "|", ".": "+", ",": "+", "'": "+", "`": "+"}
+        t = "".join(c if c in ok else m.get(c, "x") for c in text)
+        return t if len(t) <= 40000 else None
+
     def replay_case(self, case):
         return self.oracle([case["input"].split("\n")])
